@@ -6,7 +6,8 @@ C14, translator tie: the Lean definition GENERATED from the current Rust text of
 distance prefix and every `u32` NDIRECT, WHENEVER the model returns (`none` = a debug-build overflow / shift
 panic, which the release-semantics generated function cannot show): the 16 short-code rows, the direct codes
 and the long codes (`>>`/`&` against `/`/`%`, the `u32` wrap-arounds shown not to happen).
-The debug no-panic companion `distance_index_and_offset_ok` is generated too; it is not tied here.
+The generated debug no-panic companion `distance_index_and_offset_ok` holds on the same commands whenever the
+model returns (`distance_index_and_offset_ok_generated`).
 -/
 import BV.Gen.FnC18v
 import BV.Model.Recoder
@@ -122,6 +123,90 @@ theorem distance_index_and_offset_generated (c : FnC18v.Command) (dp : FnC18v.Br
       simp only [h6, ↓reduceIte] at h
       rw [long_sum ((((2 + (c.dist_prefix_ % 1024 - 16 - dp.num_direct_distance_codes) / 2 ^ dp.distance_postfix_bits % 2) * 2 ^ (c.dist_prefix_ % 65536 / 1024) % 4294967296) - 4 + c.dist_extra_) * 2 ^ dp.distance_postfix_bits % 4294967296) ((c.dist_prefix_ % 1024 - 16 - dp.num_direct_distance_codes) % 2 ^ dp.distance_postfix_bits) _ (by omega)]
       exact Option.some.inj h
+
+theorem one_shl_ge (np : Nat) (h : np < 32) : 1 ≤ (1 <<< (np % 32)) % 4294967296 := by
+  have e : np % 32 = np := Nat.mod_eq_of_lt h
+  rw [e, Nat.one_shiftLeft]
+  have hlt : 2 ^ np < 2 ^ 32 := Nat.pow_lt_pow_right (by decide) h
+  have hpos : 0 < 2 ^ np := Nat.pow_pos (by decide)
+  have p32 : (2 : Nat) ^ 32 = 4294967296 := by decide
+  rw [p32] at hlt
+  omega
+
+/-- the generated debug-build no-panic condition holds whenever the recoder model returns -/
+theorem distance_index_and_offset_ok_generated (c : FnC18v.Command) (dp : FnC18v.BrotliDistanceParams) (hp : c.dist_prefix_ < 65536)
+    (hnd : dp.num_direct_distance_codes < 4294967296) (r : Nat × Int)
+    (h : distanceIndexAndOffset (toCmd c) (toDp dp) = some r) :
+    FnC18v.distance_index_and_offset_ok c dp = true := by
+  unfold distanceIndexAndOffset at h
+  simp only [toCmd, toDp] at h
+  unfold FnC18v.distance_index_and_offset_ok
+  have hand : c.dist_prefix_ &&& 1023 = c.dist_prefix_ % 1024 := and_1023 _
+  have hndb : c.dist_prefix_ >>> (10 % 16) = c.dist_prefix_ % 65536 / 1024 := by
+    rw [Nat.mod_eq_of_lt hp]
+    show c.dist_prefix_ >>> 10 = _
+    rw [Nat.shiftRight_eq_div_pow]
+  simp only [hand, hndb]
+  have hdp : c.dist_prefix_ % 1024 < 1024 := Nat.mod_lt _ (by decide)
+  have hnb : c.dist_prefix_ % 65536 / 1024 < 64 := by omega
+  have t0 : decide (10 < 16) = true := by decide
+  simp only [t0, Bool.and_self, Bool.true_and]
+  by_cases hA : c.dist_prefix_ % 1024 < 16
+  · have dA : decide (c.dist_prefix_ % 1024 < 16) = true := by simpa using hA
+    simp only [dA, if_true]
+    have : decide (c.dist_prefix_ % 1024 < 16) = true := dA
+    simp [hA]
+  · simp only [hA, ↓reduceIte] at h
+    have dA : decide (c.dist_prefix_ % 1024 < 16) = false := by simpa using hA
+    simp only [dA, if_false, Bool.false_eq_true]
+    have e16 : (16 + dp.num_direct_distance_codes) % 18446744073709551616 = 16 + dp.num_direct_distance_codes := by omega
+    have t1 : decide (16 + dp.num_direct_distance_codes < 18446744073709551616) = true := by simp only [decide_eq_true_eq]; omega
+    rw [e16]
+    simp only [t1, Bool.true_and]
+    by_cases hB : c.dist_prefix_ % 1024 < 16 + dp.num_direct_distance_codes
+    · have dB : decide (c.dist_prefix_ % 1024 < 16 + dp.num_direct_distance_codes) = true := by simpa using hB
+      simp only [dB, if_true]
+      have e1 : wrapS 64 (((c.dist_prefix_ % 1024 : Nat) : Int) + (1 : Int)) = ((c.dist_prefix_ % 1024 : Nat) : Int) + 1 :=
+        wrapS64_of_range _ (by omega) (by omega)
+      rw [e1]
+      simp only [Bool.and_eq_true, decide_eq_true_eq]
+      omega
+    · simp only [hB, ↓reduceIte] at h
+      have dB : decide (c.dist_prefix_ % 1024 < 16 + dp.num_direct_distance_codes) = false := by simpa using hB
+      simp only [dB, if_false, Bool.false_eq_true]
+      by_cases hC : dp.distance_postfix_bits ≥ 32 ∨ c.dist_prefix_ % 65536 / 1024 ≥ 32
+      · simp only [hC, ↓reduceIte] at h; cases h
+      simp only [hC, ↓reduceIte] at h
+      have hnp : dp.distance_postfix_bits < 32 := by omega
+      have hndb32 : c.dist_prefix_ % 65536 / 1024 < 32 := by omega
+      have enp : dp.distance_postfix_bits % 32 = dp.distance_postfix_bits := Nat.mod_eq_of_lt hnp
+      have endb : (c.dist_prefix_ % 65536 / 1024) % 32 = (c.dist_prefix_ % 65536 / 1024) := Nat.mod_eq_of_lt hndb32
+      have edc : ((((c.dist_prefix_ % 1024 + 4294967296 - 16) % 4294967296) + 4294967296 - dp.num_direct_distance_codes) % 4294967296)
+          = c.dist_prefix_ % 1024 - 16 - dp.num_direct_distance_codes := by omega
+      have hone := one_shl_ge dp.distance_postfix_bits hnp
+      have e16' : (c.dist_prefix_ % 1024 + 4294967296 - 16) % 4294967296 = c.dist_prefix_ % 1024 - 16 := by omega
+      rw [mask_eq dp.distance_postfix_bits hnp, edc, Nat.and_two_pow_sub_one_eq_mod, e16']
+      simp only [enp, endb, Nat.shiftRight_eq_div_pow, Nat.and_one_is_mod]
+      have e2 : (2 + (c.dist_prefix_ % 1024 - 16 - dp.num_direct_distance_codes) / 2 ^ dp.distance_postfix_bits % 2) % 4294967296
+          = 2 + (c.dist_prefix_ % 1024 - 16 - dp.num_direct_distance_codes) / 2 ^ dp.distance_postfix_bits % 2 := by omega
+      rw [e2, Nat.shiftLeft_eq, Nat.shiftLeft_eq]
+      have p32 : (2 : Nat) ^ 32 = 4294967296 := by decide
+      rw [p32] at h
+      have hsh : (2 + (c.dist_prefix_ % 1024 - 16 - dp.num_direct_distance_codes) / 2 ^ dp.distance_postfix_bits % 2) * 2 ^ (c.dist_prefix_ % 65536 / 1024) % 4294967296 < 4294967296 :=
+        Nat.mod_lt _ (by decide)
+      by_cases h4 : ((2 + (c.dist_prefix_ % 1024 - 16 - dp.num_direct_distance_codes) / 2 ^ dp.distance_postfix_bits % 2) * 2 ^ (c.dist_prefix_ % 65536 / 1024) % 4294967296) < 4
+      · simp only [h4, ↓reduceIte] at h; cases h
+      simp only [h4, ↓reduceIte] at h
+      by_cases h5 : ((2 + (c.dist_prefix_ % 1024 - 16 - dp.num_direct_distance_codes) / 2 ^ dp.distance_postfix_bits % 2) * 2 ^ (c.dist_prefix_ % 65536 / 1024) % 4294967296) - 4 + c.dist_extra_ ≥ 4294967296
+      · simp only [h5, ↓reduceIte] at h; cases h
+      simp only [h5, ↓reduceIte] at h
+      rw [long_arith _ c.dist_extra_ 0 0 0 hsh (by omega) (by omega)]
+      by_cases h6 : (((2 + (c.dist_prefix_ % 1024 - 16 - dp.num_direct_distance_codes) / 2 ^ dp.distance_postfix_bits % 2) * 2 ^ (c.dist_prefix_ % 65536 / 1024) % 4294967296 - 4 + c.dist_extra_) * 2 ^ dp.distance_postfix_bits % 4294967296) + ((c.dist_prefix_ % 1024 - 16 - dp.num_direct_distance_codes) % 2 ^ dp.distance_postfix_bits) + dp.num_direct_distance_codes + 1 ≥ 4294967296
+      · simp only [h6, ↓reduceIte] at h; cases h
+      simp only [Bool.and_eq_true, decide_eq_true_eq]
+      rw [enp] at hone
+      simp only [Nat.shiftLeft_eq] at hone ⊢
+      omega
 
 example : distanceIndexAndOffset ⟨0, 0, 5, 0, 8 * 1024 + 31⟩ ⟨0, 0⟩ = some (0, 770) := by decide +kernel
 example : FnC18v.distance_index_and_offset ⟨0, 0, 5, 0, 8 * 1024 + 31⟩ ⟨0, 0, 0, 0⟩ = (0, 770) := by decide +kernel
